@@ -138,6 +138,13 @@ static void checkMatrix(const Mat& A)
             b[i] = (v == 0 ? 1.0 : (v == 1 ? (i % 2 ? -3.5 : 2.25) : 1e3 * (i + 1))) + 0.125 * i * v;
         rhs.push_back(b);
     }
+    // uniformly tiny and huge right-hand sides (the solve must not contain absolute thresholds)
+    for (double scl : {1e-30, 1e30}) {
+        std::vector<double> b = rhs[rhs.size() - 3];
+        for (auto& v : b)
+            v *= scl;
+        rhs.push_back(b);
+    }
     const LD eps = 1.1102230246251565e-16L;
     for (size_t k = 0; k < rhs.size(); k++) {
         Vector<double> x(n);
@@ -182,7 +189,7 @@ static void checkMatrix(const Mat& A)
             return;
         }
         // later right-hand sides are unaffected by earlier ones: bitwise equal to a fresh solver
-        if (k == rhs.size() - 1 || k == 1) {
+        if (k == rhs.size() - 3 || k == 1) {
             SparseMatrixCSR<double> M2 = build(A);
             SparseLUSolver<double> F(M2);
             Vector<double> y(n);
